@@ -236,20 +236,35 @@ def vec_equal(actual, exp):
     return actual["system"] == tuple(exp["system"]) and actual["momentum"] == exp["momentum"] and same(actual["coords"], exp["coords"])
 
 
+def opname(oid):
+    """operation an obligation id talks about: 'glue/rotate_euler[XYZ][xy,z|gen]' -> 'rotate_euler', 'operator/v+w[..' -> 'operator/v+w'"""
+    parts = oid.split("[")[0].split("/")
+    if parts and parts[0] in ("glue", "defined", "typeerror"):
+        parts = parts[1:]
+    return "/".join(parts)
+
+
 class Obligations:
     def __init__(self, prop):
         self.prop = prop
         self.items = []
         self.n = 0
         self.bad = []
+        self.ops = {}
+
+    def _count(self, oid):
+        k = opname(oid)
+        self.ops[k] = self.ops.get(k, 0) + 1
 
     def check(self, oid, ok, detail=None):
         self.n += 1
+        self._count(oid)
         if not ok:
             self.bad.append((f"{self.prop}/{oid}", detail))
 
     def raises(self, oid, fn, exc=TypeError):
         self.n += 1
+        self._count(oid)
         try:
             r = fn()
         except exc:
